@@ -23,8 +23,7 @@
       limit), [Some 16] the tree with fixes/30-op-depth-limit.patch.
     - Undefined behaviour is an outcome ([UB]): [ADDRXLAT_CAPS(as)] with [as]
       outside [0, 63] (shift count), a method index outside the [meth] array,
-      more than [ADDRXLAT_FIELDS_MAX] address fields, a field or memory-array
-      shift of 64 bits or more.
+      a field or memory-array shift of 64 bits or more.
     - The memory behind the get-page callback is the function [mem as addr
       size] returning the callback's status and the loaded value; the 4-slot
       read cache of ctx.c is transparent for such a callback and not
@@ -354,7 +353,7 @@ Section Interp.
             else WErr ST_NOTIMPL
       | MPgt tas root pte64 mask fields =>
           if (fa_as root =? AS_NOADDR)%Z then WErr ST_NODATA
-          else if (8 <? length fields)%nat then WUB
+          else if (8 <? length fields)%nat then WErr ST_NOTIMPL      (* "Too many paging levels" *)
           else match split_fields fields addr with
                | None => WUB
                | Some (idx, top) =>
@@ -757,7 +756,7 @@ Section Cached.
             else (WErr ST_NOTIMPL, c)
       | MPgt tas root pte64 mask fields =>
           if (fa_as root =? AS_NOADDR)%Z then (WErr ST_NODATA, c)
-          else if (8 <? length fields)%nat then (WUB, c)
+          else if (8 <? length fields)%nat then (WErr ST_NOTIMPL, c)
           else match split_fields fields addr with
                | None => (WUB, c)
                | Some (idx, top) =>
